@@ -658,13 +658,20 @@ class NetSim(BaseEngine):
             clock.last_event = max(clock.last_event, nxt if nxt is not None else clock.now)
             clock.arm()
 
-        for op in plan['ops'] + [['advance', 1.0], ['drain'], ['advance', 1.0], ['drain'], ['drain'], ['drain']] + \
+        for op in plan['ops'] + [['advance', 1.0], ['drain'], ['settle'], ['drain'], ['drain'], ['drain'], ['drain']] + \
                 ([['drain']] * 4 if any(cl.get('bulk') for cl in plan['clients']) else []):
             k = op[0]
             stats['steps'] += 1
             if k == 'advance':
                 clock.now += op[1]
                 net.pump()
+                continue
+            if k == 'settle':
+                # end of the history: let every scheduled network event happen before the final drains
+                while net.next_event_time() is not None:
+                    clock.now = max(clock.now, net.next_event_time())
+                    net.pump()
+                clock.now += 1.0
                 continue
             c0, s0 = clock.now, clock.sleep_calls
             arm()
